@@ -108,6 +108,20 @@ theorem appendTok_eq (cls : Char → CClass) (self : Ymd) (val : Token) (label :
     cases hd : isDigitTok cls val <;> by_cases hl : val.length > 2 <;>
       cases label <;> simp [hd, hl, bind_ok, bind_err, labelArms_eq]
 
+/-- `_ymd.append(str(n), label)` for an int `n ≥ 0` (the text of a year `convertyear` returned) = the model's
+    `appendCore` on the number: the century rule looks at the LENGTH of the decimal text -/
+theorem appendIntStr_eq (cls : Char → CClass) (self : Ymd) (n : Int) (label : Label) (hn : 0 ≤ n) :
+    Gen.P.ymd_appendIntStr cls self n label = self.appendCore (PPy.intStrLen n > 2) (.ok n.toNat) label := by
+  unfold Gen.P.ymd_appendIntStr
+  change Except.bind _ (fun (j : Ymd × Label) => Except.bind (PPy.natOfInt n) (fun i =>
+    labelArms { j.1 with vals := j.1.vals ++ [i] } j.2)) = _
+  unfold PM.Ymd.appendCore
+  have hnat : PPy.natOfInt n = .ok n.toNat := by
+    unfold PPy.natOfInt; simp; omega
+  generalize PPy.intStrLen n = len
+  by_cases hl : len > 2 <;>
+    cases label <;> simp [hl, hn, hnat, bind_ok, bind_err, labelArms_eq, PPy.intStrIsDigit]
+
 theorem monthrange_nonneg {y m n : Int} (h : PM.monthrange y m = .ok n) : 0 ≤ n := by
   unfold PM.monthrange at h
   split at h
